@@ -418,6 +418,30 @@ def frame_checks(unit):
     return results
 
 
+def _has_plain_closure(body):
+    """an exec closure `|args| expr` / `move |args| ...` outside proof blocks (spec quantifiers forall|..| / exists|..| / choose|..| are not closures)"""
+    m = mask(body)
+    # drop proof blocks and ghost lets
+    out, i = [], 0
+    for mm in re.finditer(r"\bproof\s*\{", m):
+        if mm.start() < i:
+            continue
+        ob = mm.end() - 1
+        cb = match_close(m, ob)
+        out.append(m[i:mm.start()])
+        i = cb + 1
+    out.append(m[i:])
+    t = "".join(out)
+    t = re.sub(r"\b(forall|exists|choose)\s*\|[^|]*\|", " ", t)
+    t = re.sub(r"\|\|", " ", t)      # logical or / empty-arg closures handled below
+    for mm in re.finditer(r"(?:(?<=[(,=])|(?<=\bmove)|(?<=\breturn))\s*\|[^|;{}]*\|", t):
+        return True
+    # empty-argument closures `|| expr` directly as a call argument
+    if re.search(r"[(,]\s*(?:move\s+)?\|\|\s*[\w{(&*!]", mask(body)):
+        return True
+    return False
+
+
 def _private_helpers_of(S, allowed, tests):
     """Body spans of private helpers that are only ever called from inside the allowed functions (or from each other): R19 splices
     such a helper into its contracted callers, where its writes are verified with them, so a write inside it is inside the frame.
@@ -832,6 +856,21 @@ def run_unit(name, workdir, rlimit=None, seed=None, twins=True):
             if not failed_here:
                 res["obligations"]["%s/%s#safety" % (name, fnpath)]["status"] = "failed"
                 res["obligations"]["%s/%s#safety" % (name, fnpath)]["diag"].append(dict(message="function reported unsuccessful without a located diagnostic", rendered="", in_fn=fnpath))
+    # precision guard: an exec closure without requires/ensures has NO postcondition for the verifier (its result is arbitrary). When one
+    # is left in a rewritten body (a combinator the unit has no rule for, e.g. after a refactoring), an obligation that fails in that
+    # function is not a refutation of the code but a loss of precision: undecided, never a violation.
+    for c in g.contracted:
+        span = g.bodies.get(c["fnpath"])
+        if not span:
+            continue
+        btxt = "\n".join(g.lines[span[0] - 1:span[1]])
+        if not _has_plain_closure(btxt):
+            continue
+        hit = [o for o in res["obligations"].values() if o["status"] == "failed" and any(d.get("in_fn") == c["fnpath"] for d in o["diag"])]
+        if hit:
+            for o in hit:
+                o["status"] = "undecided"
+            res["undecided"].append("%s: an unannotated closure remains in the rewritten body (its result is unknown to the verifier); %d failed obligation(s) there are not refutations" % (c["fnpath"], len(hit)))
     if res["undecided"]:
         for o in res["obligations"].values():
             if o["status"] == "discharged":
